@@ -81,9 +81,11 @@
 package fscache
 
 import (
+	"bytes"
 	"cmp"
 	"context"
 	"crypto/rand"
+	"crypto/sha256"
 	"errors"
 	"fmt"
 	"io"
@@ -369,6 +371,10 @@ func (c *fsCache) get(key string) ([]byte, error) {
 		if err != nil {
 			return nil, err
 		}
+		data, err = unbindKey(key, data)
+		if err != nil {
+			return nil, err
+		}
 	}
 	if c.updateMTime {
 		mtime := time.Now()
@@ -405,7 +411,7 @@ func (c *fsCache) Set(key string, entry []byte) error {
 func (c *fsCache) set(key string, entry []byte) error {
 	if c.enc != nil {
 		var err error
-		entry, err = c.enc.Encrypt(entry)
+		entry, err = c.enc.Encrypt(bindKey(key, entry))
 		if err != nil {
 			return err
 		}
@@ -448,6 +454,23 @@ func (c *fsCache) set(key string, entry []byte) error {
 // tempFilePrefix marks files that hold a value while it is being written. It
 // cannot be the start of a key's file name (see [fragmentFileName]).
 const tempFilePrefix = ".tmp-"
+
+var errKeyMismatch = errors.New("fscache: encrypted entry belongs to another key")
+
+// bindKey prefixes the plaintext with a digest of the key it is stored under, so
+// that an authentic ciphertext moved into another key's file is rejected on read.
+func bindKey(key string, data []byte) []byte {
+	h := sha256.Sum256([]byte(key))
+	return append(h[:], data...)
+}
+
+func unbindKey(key string, data []byte) ([]byte, error) {
+	h := sha256.Sum256([]byte(key))
+	if len(data) < len(h) || !bytes.Equal(data[:len(h)], h[:]) {
+		return nil, errKeyMismatch
+	}
+	return data[len(h):], nil
+}
 
 func (c *fsCache) Delete(key string) error {
 	ctx, cancel := context.WithTimeout(context.Background(), c.timeout)
